@@ -98,7 +98,7 @@ def mesh2d(rng, nmax=6, nmin=1, big=0.0):
 # ----------------------------------------------------------------------------- reconstructions
 LIMITERS = ["minmod", "vanalbada", "vanleer", "superbee"]
 LINEAR_RECONS = ["extrapol1", "extrapol2", "extrapol3", "centered", "fromm", "quick", "extrapolk"]
-ALL_RECONS = LINEAR_RECONS + ["muscl_" + l for l in LIMITERS]
+ALL_RECONS = LINEAR_RECONS + ["muscl_" + l for l in LIMITERS] + ["muscl_user_koren", "muscl_user_firstarg"]      # + user-supplied asymmetric limiters
 KAPPA = {"extrapol2": -1.0, "fromm": 0.0, "quick": 0.5, "extrapol3": 1.0 / 3.0, "centered": 1.0}
 
 
@@ -113,7 +113,24 @@ def recon(name, rng=None, k=None):
     return obj, full
 
 
+def koren(a, b):
+    """Koren's limiter written as a limited slope of (a, b): NOT symmetric in its arguments (third-order weight on the second one).  A user
+    may hand any such function to muscl(); the library documents that the first argument is the gradient of the face extrapolated to"""
+    a, b = np.asarray(a, float), np.asarray(b, float)
+    return np.where(a * b <= 0.0, 0.0, np.sign(a) * np.minimum(np.minimum(2 * np.abs(a), (np.abs(a) + 2 * np.abs(b)) / 3.0), 2 * np.abs(b)))
+
+
+def firstarg(a, b):
+    """'limiter' that returns its first argument (unlimited one-sided slope): as asymmetric as can be"""
+    return np.asarray(a, float) + 0.0 * np.asarray(b, float)
+
+
+USER_LIMITERS = {"muscl_user_koren": koren, "muscl_user_firstarg": firstarg}
+
+
 def _recon(name, rng=None, k=None):
+    if name in USER_LIMITERS:
+        return xnum.muscl(USER_LIMITERS[name]), name
     if name == "extrapolk":
         if k is None:
             k = float(np.round(rng.uniform(-1.0, 1.0), 3))
